@@ -151,6 +151,16 @@ type peerResult struct {
 	RC4      bool   `json:"rc4"`
 	TheirId  []byte `json:"-"`
 	TheirRsv []byte `json:"-"`
+	// the bytes following our handshake that we really put on the wire (a script cut short by
+	// Truncate half-closes after its first flight: what it would have written later is dropped)
+	AppSent []byte `json:"-"`
+}
+
+func afterHandshake(b []byte) []byte {
+	if len(b) <= 68 {
+		return nil
+	}
+	return append([]byte(nil), b[68:]...)
 }
 
 // checkHandshake verifies the other end's BitTorrent handshake.
@@ -183,6 +193,7 @@ func peerClient(e *end, sp *script) (res peerResult) {
 		if err := writeSplit(e, plain, sp.Split); err != nil {
 			return fail(err)
 		}
+		res.AppSent = afterHandshake(plain)
 		if sp.Truncate > 0 {
 			e.CloseWrite()
 		}
@@ -247,9 +258,13 @@ func peerClient(e *end, sp *script) (res peerResult) {
 			wr = cryptWriter{e, enc}
 		}
 		rd = br
+		res.AppSent = afterHandshake(plain[:ialen])
 		if ialen < len(plain) {
 			if _, err := wr.Write(plain[ialen:]); err != nil {
 				return fail(err)
+			}
+			if sp.Truncate == 0 {
+				res.AppSent = afterHandshake(plain)
 			}
 		}
 	}
@@ -263,6 +278,9 @@ func peerClient(e *end, sp *script) (res peerResult) {
 	if len(sp.Late) > 0 {
 		if _, err := wr.Write(sp.Late); err != nil {
 			return fail(err)
+		}
+		if sp.Truncate == 0 {
+			res.AppSent = append(res.AppSent, sp.Late...)
 		}
 	}
 	e.CloseWrite()
@@ -302,6 +320,7 @@ func peerServer(e *end, sp *script) (res peerResult) {
 		if err := writeSplit(e, reply, sp.Split); err != nil {
 			return fail(err)
 		}
+		res.AppSent = afterHandshake(reply)
 		if sp.Truncate > 0 {
 			e.CloseWrite()
 		}
@@ -377,12 +396,16 @@ func peerServer(e *end, sp *script) (res peerResult) {
 			if sel == 2 {
 				pl = crypt(enc, reply)
 			}
+			nprefix := len(out)
 			out = append(out, pl...)
 			if sp.Truncate > 0 && sp.Truncate < len(out) {
 				out = out[:sp.Truncate]
 			}
 			if _, err := e.Write(out); err != nil {
 				return fail(err)
+			}
+			if len(out) > nprefix {
+				res.AppSent = afterHandshake(reply[:len(out)-nprefix])
 			}
 		} else {
 			if _, err := e.Write(out); err != nil {
@@ -391,6 +414,7 @@ func peerServer(e *end, sp *script) (res peerResult) {
 			if _, err := wr.Write(reply); err != nil {
 				return fail(err)
 			}
+			res.AppSent = afterHandshake(reply)
 		}
 		if sp.Truncate > 0 {
 			e.CloseWrite()
@@ -407,6 +431,9 @@ func peerServer(e *end, sp *script) (res peerResult) {
 	if len(sp.Late) > 0 {
 		if _, err := wr.Write(sp.Late); err != nil {
 			return fail(err)
+		}
+		if sp.Truncate == 0 {
+			res.AppSent = append(res.AppSent, sp.Late...)
 		}
 	}
 	e.CloseWrite()
